@@ -522,6 +522,15 @@ def OpRow.withSpec (r : OpRow) : OpRow :=
     { r with ufunc := u, union := un, intOnly := io, fillFirst := ff, dtypeOut := if fo then "f8" else "" }
   | none => r
 
+/-- storing a ufunc result into an array of dtype `dt` (`combined[idx] = func(combined[idx], values)`
+    with `values` of another dtype: numpy computes in the promoted type and narrows on assignment):
+    numeric results go through `dt.wrap` (integer wrap-around; identity for float / bool arrays);
+    the ±inf start values, byte rows and `poison` are unchanged -/
+def narrow (dt : DT) (v : Val) : Val :=
+  match v with
+  | .num n e => .ofDy (dt.wrap (n, e))
+  | v => v
+
 /-- numpy ufunc on two cells of dtype `dt` -/
 def ufuncCell (ufunc : String) (dt : DT) (x w : Val) : Val :=
   match ufunc with
@@ -538,8 +547,8 @@ def ufuncCell (ufunc : String) (dt : DT) (x w : Val) : Val :=
   | "bitwise_or" => Val.or dt x w
   | "bitwise_and" => Val.and dt x w
   | "bitwise_xor" => Val.xor dt x w
-  | "fmax" => Val.fmax x w
-  | "fmin" => Val.fmin x w
+  | "fmax" => narrow dt (Val.fmax x w)
+  | "fmin" => narrow dt (Val.fmin x w)
   | _ => .poison
 
 def dtCode : DT → String
